@@ -119,6 +119,8 @@ func buildOptsFromName(name string, absDir string, entries []string, outdir stri
 			o.Splitting = true
 		case f == "metafile":
 			o.Metafile = true
+		case f == "nosc":
+			o.SourcesContent = api.SourcesContentExclude
 		case f == "shake=false":
 			o.TreeShaking = api.TreeShakingFalse
 		case f == "shake=true":
